@@ -771,6 +771,17 @@ pub fn edits(t: &Term) -> Vec<(String, Term)> {
           None => "zz".into(),
         });
         out.push(("sms.original_source".into(), Term::Sms(Box::new(s))));
+        // the recorded content of each source of the outer map as the explicit original source (only
+        // the entry of the source's own name is what an absent original_source falls back to)
+        if let Some(cs) = &spec.map.contents {
+          for (ci, c) in cs.iter().enumerate() {
+            if !c.is_empty() && spec.original_source.as_deref() != Some(c.as_str()) {
+              let mut s = (**spec).clone();
+              s.original_source = Some(c.clone());
+              out.push((format!("sms.original_source_is_content_of_source_{ci}"), Term::Sms(Box::new(s))));
+            }
+          }
+        }
         // edits that change the line structure of the intermediate text (which inner mappings
         // exist at all), with and without the option that drops the intermediate file
         if let Some(o) = &spec.original_source {
